@@ -1,0 +1,38 @@
+//go:build verif
+
+// Contracts for the deductive verification in /verif (comment-only; compiled code is unaffected).
+package mem
+
+// C18, "accounts created through Dirk after start-up": the accounts of a wallet are the start-up map plus the overlay;
+// adding an account forgets nothing.
+
+//@ spec known(s *Service, w string, n string) bool = (w in s.walletAccounts && n in s.walletAccounts[w]) || (w in s.rwWalletAccounts && n in s.rwWalletAccounts[w])
+//@ spec accountOf(s *Service, w string, n string) any = if w in s.rwWalletAccounts && n in s.rwWalletAccounts[w] then s.rwWalletAccounts[w][n] else s.walletAccounts[w][n]
+//@ spec mapsWf(s *Service) bool = s.rwWalletAccounts != nil && s.rwPubKeyPaths != nil && s.walletAccounts != s.rwWalletAccounts && s.pubKeyPaths != s.rwPubKeyPaths && (forall w string :: w in s.rwWalletAccounts ==> s.rwWalletAccounts[w] != nil && allocated(s.rwWalletAccounts[w])) && (forall w string :: w in s.walletAccounts ==> s.walletAccounts[w] != nil && allocated(s.walletAccounts[w])) && (forall w string, v string :: w in s.rwWalletAccounts && v in s.walletAccounts ==> s.rwWalletAccounts[w] != s.walletAccounts[v]) && (forall w string, v string :: w in s.rwWalletAccounts && v in s.rwWalletAccounts && w != v ==> s.rwWalletAccounts[w] != s.rwWalletAccounts[v])
+
+//@ func (*Service).FetchAccounts
+//@ requires s != nil && mapsWf(s)
+//@ ensures [all] result1 == nil ==> result0 != nil && (forall n string :: (n in result0) <==> known(s, wanW(path), n)) && (forall n string :: n in result0 ==> result0[n] == accountOf(s, wanW(path), n))
+//@ ensures [found] wanOk(path) && ((wanW(path) in s.walletAccounts) || (wanW(path) in s.rwWalletAccounts)) ==> result1 == nil
+//@ loop #1
+//@ invariant [ctx] allWalletAccounts != nil && fresh(allWalletAccounts) && rwExists && rwWalletAccounts == s.rwWalletAccounts[wanW(path)] && (wanW(path) in s.rwWalletAccounts) && (`exists` <==> (wanW(path) in s.walletAccounts)) && (`exists` ==> walletAccounts == s.walletAccounts[wanW(path)]) && (!`exists` ==> walletAccounts == nil)
+//@ invariant [sub] forall n string :: visited()[n] ==> `exists` && n in s.walletAccounts[wanW(path)]
+//@ invariant [copied] forall n string :: (n in allWalletAccounts) <==> visited()[n]
+//@ invariant [values] forall n string :: n in allWalletAccounts ==> allWalletAccounts[n] == s.walletAccounts[wanW(path)][n]
+//@ loop #2
+//@ invariant [ctx] allWalletAccounts != nil && fresh(allWalletAccounts) && rwExists && rwWalletAccounts == s.rwWalletAccounts[wanW(path)] && (wanW(path) in s.rwWalletAccounts) && (`exists` <==> (wanW(path) in s.walletAccounts)) && (`exists` ==> walletAccounts == s.walletAccounts[wanW(path)]) && (!`exists` ==> walletAccounts == nil)
+//@ invariant [sub] forall n string :: visited()[n] ==> n in s.rwWalletAccounts[wanW(path)]
+//@ invariant [copied] forall n string :: (n in allWalletAccounts) <==> ((`exists` && n in s.walletAccounts[wanW(path)]) || visited()[n])
+//@ invariant [values] forall n string :: n in allWalletAccounts ==> allWalletAccounts[n] == (if visited()[n] then s.rwWalletAccounts[wanW(path)][n] else s.walletAccounts[wanW(path)][n])
+
+//@ func (*Service).AddAccount
+//@ requires s != nil && mapsWf(s) && wallet != nil && account != nil
+//@ modifies s.rwWalletAccounts[nameOf(wallet)], mapall(s.rwPubKeyPaths), mapall(s.rwWalletAccounts[nameOf(wallet)])
+//@ ensures [added] result == nil ==> known(s, nameOf(wallet), nameOf(account)) && accountOf(s, nameOf(wallet), nameOf(account)) == account
+//@ ensures [keeps] forall w string, n string :: old(known(s, w, n)) ==> known(s, w, n)
+//@ ensures [same] forall w string, n string :: old(known(s, w, n)) && !(w == nameOf(wallet) && n == nameOf(account)) ==> accountOf(s, w, n) == old(accountOf(s, w, n))
+//@ ensures [wf1] s.rwWalletAccounts != nil && s.rwPubKeyPaths != nil
+//@ ensures [wf2] forall w string :: w in s.rwWalletAccounts ==> s.rwWalletAccounts[w] != nil && allocated(s.rwWalletAccounts[w])
+//@ ensures [wf3] forall w string :: w in s.walletAccounts ==> s.walletAccounts[w] != nil && allocated(s.walletAccounts[w])
+//@ ensures [wf4] forall w string, v string :: w in s.rwWalletAccounts && v in s.walletAccounts ==> s.rwWalletAccounts[w] != s.walletAccounts[v]
+//@ ensures [wf5] forall w string, v string :: w in s.rwWalletAccounts && v in s.rwWalletAccounts && w != v ==> s.rwWalletAccounts[w] != s.rwWalletAccounts[v]
